@@ -24,6 +24,12 @@ Proof. exact schemas_agree. Qed.
 Theorem C10_schemas_wf : wf_envb write_env = true /\ closed_envb write_env = true.
 Proof. exact (conj write_env_wf write_env_closed). Qed.
 
+(* no declared field is silently dropped: `serialize` skips exactly the fields `deserialize` recomputes, and
+   those are the reviewed list (automata, pools, function pointers, user data) *)
+Theorem C10_unwritten_fields_are_the_rebuilt_ones :
+  fields_table_eqb unwritten_fields rebuilt_fields && fields_table_eqb rebuilt_fields expected_rebuilt = true.
+Proof. exact unwritten_fields_are_the_rebuilt_ones. Qed.
+
 (* hence every wire type of boreal round-trips: written under the write tables, read under the read tables *)
 Theorem C10_wire_roundtrip :
   forall t v bs rest fuel, encode write_env v (SRef t) = Some bs -> (vdepth v <= fuel)%nat ->
@@ -65,6 +71,7 @@ Print Assumptions C10_codec_roundtrip.
 Print Assumptions C10_codec_roundtrip_fuel.
 Print Assumptions C10_schemas_agree.
 Print Assumptions C10_schemas_wf.
+Print Assumptions C10_unwritten_fields_are_the_rebuilt_ones.
 Print Assumptions C10_wire_roundtrip.
 Print Assumptions C10_file_roundtrip.
 Print Assumptions C10_rebuild_params_agree.
